@@ -929,6 +929,9 @@ func (f *FuncCtx) builtin(name string, e *ast.CallExpr, env *Env) []Val {
 			es := f.S.SortOf(st.Elem())
 			na := f.fresh("app", fmt.Sprintf("(Array Int %s)", es))
 			f.emit(fmt.Sprintf("(assert (forall ((i!q Int)) (! (= (select %s i!q) (ite (< i!q (s_len %s)) (select (s_arr %s) i!q) (select (s_arr %s) (- i!q (s_len %s))))) :pattern ((select %s i!q)))))", na, s.T, s.T, t.T, s.T, na))
+			// forward direction with triggers on the operands, so that facts about elements of s and t transfer
+			f.emit(fmt.Sprintf("(assert (forall ((w!q Int)) (! (=> (and (<= 0 w!q) (< w!q (s_len %s))) (= (select %s (+ (s_len %s) w!q)) (select (s_arr %s) w!q))) :pattern ((select (s_arr %s) w!q)))))", t.T, na, s.T, t.T, t.T))
+			f.emit(fmt.Sprintf("(assert (forall ((w!q Int)) (! (=> (and (<= 0 w!q) (< w!q (s_len %s))) (= (select %s w!q) (select (s_arr %s) w!q))) :pattern ((select (s_arr %s) w!q)))))", s.T, na, s.T, s.T))
 			return []Val{{T: fmt.Sprintf("(mk_slice %s (+ (s_len %s) (s_len %s)) (and (s_nil %s) (= (s_len %s) 0)))", na, s.T, t.T, s.T, t.T), Typ: typ}}
 		}
 		cur := s
